@@ -106,6 +106,42 @@ def sc_ubm_zero(B, C, D, S, norm):
     return o
 
 
+def sc_history(B, C, D, change):
+    """scoring reflects the UBM's *current* parameters: score, modify the UBM through its public
+    setters, score again"""
+    gmm = B.mod("gmm")
+    ls = B.mod("linear_scoring").linear_scoring
+    ubm, UP = make_gmm(B, C, D, "scalar", pre="u")
+    means = [B.arr("m0", (C, D))]
+    st = gmm.GMMStats(C, D)
+    n, F, t = B.arr("n", (C,), nonneg=True), B.arr("F", (C, D)), B.real("t", lo=1)
+    st.n, st.sum_px, st.t = B.copy(n), B.copy(F), t
+    so = [dict(n=n, F=F, t=t, zero=False)]
+    user = gmm.GMMMachine(C, trainer="map", ubm=ubm) if change.endswith("-via-map") else ubm
+    ls([B.copy(means[0])], user, [st], 0, frame_length_normalization=True)  # first use
+    if change.startswith("variances"):
+        nv = B.arr("nv", (C, D), pos=True)
+        ubm.variances = B.copy(nv)
+        UP["v"] = [[B.maximum(UP["thr"][c][d], nv[c, d]) for d in range(D)] for c in range(C)]
+    elif change.startswith("floors"):
+        nt = B.real("nt", pos=True)
+        ubm.variance_thresholds = nt
+        UP["v"] = [[B.maximum(nt, UP["v"][c][d]) for d in range(D)] for c in range(C)]
+    elif change.startswith("means"):
+        nm = B.arr("nm", (C, D))
+        ubm.means = B.copy(nm)
+        UP["mu"] = [[nm[c, d] for d in range(D)] for c in range(C)]
+    got = ls([B.copy(means[0])], user, [st], 0, frame_length_normalization=True)
+    o = Outcome()
+    o.equal("score-after-change", got, oracle(B, UP, means, so, (lambda s, c, d: 0), True))
+    return o
+
+
+def job_history(P, C, D):
+    for change in ("variances", "floors", "means", "variances-via-map", "floors-via-map"):
+        P.run("history-" + change, sc_history, dict(C=C, D=D, change=change), validate=1)
+
+
 def job_linear(P, C, D, M, S):
     for off in ("zero", "cd", "scd"):
         for norm in (False, True):
@@ -128,4 +164,6 @@ def jobs(tier):
         for M in ms:
             for S in ms:
                 out.append(("linear@C%dD%dM%dS%d" % (C, D, M, S), "job_linear", dict(C=C, D=D, M=M, S=S)))
+    for (C, D) in SIZES[tier]:
+        out.append(("history@C%dD%d" % (C, D), "job_history", dict(C=C, D=D)))
     return out
